@@ -101,7 +101,17 @@ def hPersistOld : List (Nat × Ev) :=
    (1002, .cmd 1 [oldOp "persist" kWk (.put ⟨1, none⟩)]), (1003, .multi 0)]
 
 /-- the watch-list switches of the tree after commits 180a098 and 3ed7039, before a purge at WATCH time -/
-def Q.noPurge : Q := ⟨true, true, false⟩
+def Q.noPurge : Q := ⟨true, true, false, false⟩
+
+/-- A: WATCH wk; MULTI; UNWATCH (inside MULTI); B: SET wk -/
+def hUnwatchInMulti : List (Nat × Ev) :=
+  [(1000, .cmd 1 [setOp kWk 1]), (1001, .watch 0 [kWk]), (1002, .multi 0), (1003, .unwatch 0), (1004, .cmd 1 [setOp kWk 2])]
+/-- A: WATCH wk; a refused UNWATCH / a MULTI + refused EXEC + refused DISCARD (surplus arguments); B: SET wk -/
+def hRefused : List (Nat × Ev) :=
+  [(1000, .cmd 1 [setOp kWk 1]), (1001, .watch 0 [kWk]), (1002, .refused 0), (1003, .multi 0), (1004, .refused 0),
+   (1005, .refused 0), (1006, .cmd 1 [setOp kWk 2])]
+/-- the tree's watch list before 7dd14e2 (UNWATCH inside MULTI ran at once) -/
+def Q.unwatchAtOnce : Q := ⟨true, true, true, false⟩
 
 /-- reply of A's EXEC (at time `now`) after the history -/
 def execAfter (q : Q) (h : List (Nat × Ev)) (now : Nat) : Reply :=
